@@ -330,6 +330,19 @@ class SMUserList(UserList, ABC):
             raise ValueError("can't insert a multivalued element - must have len() == 1")
         self.data[i] = value.A
 
+    # UserList's + and * (list concatenation and repetition) are not defined for spatial
+    # math objects: a subclass implements the arithmetic operators it supports, every
+    # other operand pairing is an error
+    def __add__(self, other):
+        return NotImplemented
+
+    __radd__ = __add__
+
+    def __mul__(self, other):
+        return NotImplemented
+
+    __rmul__ = __mul__
+
     # flag these binary operators as being not supported
     def __lt__(self, other):
         return NotImplementedError
